@@ -56,7 +56,12 @@ def spellings(ctx):
     strs += ["".join(rng.choice("ab'%_\\ é’\n") for _ in range(rng.randrange(0, 12))) for _ in range(400 if ctx.thorough else 60)]
     for c in strs:
         out.append(("'" + c.replace("'", "''") + "'", "String", c, "ok str " + hexs(c)))
-    for c in ["POINT(1 2)", "", "SRID=4326;POINT(0 0)", "a''b"]:
+    # geography content is carried VERBATIM: prefix case, whitespace at the ends and around ';', several ';', WKT case, quotes as written
+    geos = ["POINT(1 2)", "", "SRID=4326;POINT(0 0)", "a''b", "srid=4326;Point(1 2)", "Srid=0;point(1 2)", "SRID=0; Point(1 2)", "SRID=0 ;Point(1 2)", " SRID=0;Point(1 2) ",
+            " POINT(1 2)", "POINT(1 2) ", "  ", ";", "a;b;c", "srid=1;srid=2;Point(0 0)", "point(1  2)", "Point(1 2)\t", "POLYGON((0 0,1 1,0 1,0 0))", "é;É", "x" * 200]
+    geos += ["".join(rng.choice(["srid=", "SRID=", ";", " ", "  ", "Point", "POINT", "(", ")", "1", "-2.5", ",", "''", "é", "a", "B"]) for _ in range(rng.randrange(1, 9)))
+             for _ in range(300 if ctx.thorough else 60)]
+    for c in geos:
         out.append(("geography'" + c + "'", "Geography", c, "notimpl"))
         out.append(("GEOGRAPHY'" + c + "'", "Geography", c, "notimpl"))
     for g in ["01234567-89ab-cdef-0123-456789abcdef", "AAAAAAAA-BBBB-CCCC-DDDD-EEEEEEEEEEEE", "00000000-0000-0000-0000-000000000000", "a7af27e6-f5a0-11e9-9649-0a252986adba"]:
